@@ -69,7 +69,9 @@ impl<'a> Matcher<'a> {
                 let a = b.as_ptr() as usize;
                 if a >= base + self.pstart[pi] && a + b.len() <= base + self.pstart[pi] + par.len() {
                     let p = a - base - self.pstart[pi];
-                    if p >= cursor && all_spaces(&par[cursor..p]) {
+                    // (the first slice of the text starts at byte 0: an uncovered space must lie
+                    // *between* two slices or after the last one)
+                    if p >= cursor && all_spaces(&par[cursor..p]) && (p == 0 || li > 0) {
                         v.push((p, p + b.len(), false));
                         return v;
                     }
@@ -91,7 +93,7 @@ impl<'a> Matcher<'a> {
                     }
                     break;
                 }
-                if p < par.len() && par.as_bytes()[p] == b' ' {
+                if li > 0 && p < par.len() && par.as_bytes()[p] == b' ' {
                     p += 1;
                 } else {
                     break;
@@ -167,6 +169,9 @@ fn global_match(text: &str, lines: &[Cow<str>], cfg: &Cfg) -> bool {
                         }
                     }
                 }
+            }
+            if li == 0 {
+                return false; // nothing may be skipped before the first slice
             }
             if text[p..].starts_with(' ') {
                 p += 1;
@@ -315,6 +320,22 @@ pub fn check_wrap(text: &str, cfg: &Cfg, mask: u32, cx: &mut Cx) {
             cx.check("C09-fill-eq-join", f == j, &d, &|| json!({"fill": f, "join(wrap)": j}));
         }
         cx.check("C09-not-fewer-lines", lines.len() >= pars.len(), &d, &|| json!({"lines": lines_json(&lines), "paragraphs": pars.len()}));
+    }
+
+    // ---- C01 speaks of "every line of fill's result" too.  Where fill may take its own
+    // byte-length shortcut (width at or above the byte length, give or take one) its lines are
+    // judged as well: identical to wrap's lines (then the clauses below judge them), or else
+    // in-order slices by the global matcher.
+    if mask & M_C01 != 0 && cfg.width.saturating_add(1) >= text.len() {
+        if let Some(f) = cx.guard(|| fill(text, &o)) {
+            if f == lines.join(les) {
+                cx.pass("C01-fill-lines-are-slices");
+            } else {
+                let fl: Vec<Cow<str>> = f.split(les).map(|l| Cow::Owned(l.to_string())).collect();
+                let ok = global_match(text, &fl, cfg);
+                cx.check("C01-fill-lines-are-slices", ok, &d, &|| json!({"fill": f, "wrap": lines_json(&lines), "note": "fill's lines differ from wrap's and are not indent + in-order slices covering the text up to spaces and line endings"}));
+            }
+        }
     }
 
     // ---- C09 (b): paragraphs wrap independently, for every split a + ending + b
